@@ -586,3 +586,84 @@ M['C11'] = [
     dict(id='c11-benign-dispatch-default-direct', kind='benign', edits=[
         ('src/array.c', '    default:\n        cstl_raw_array_sort(\n            arr, count, size, cmp, priv, swap, tmp,\n            CSTL_SORT_ALGORITHM_DEFAULT);\n        break;', '    default:\n        cstl_raw_array_qsort(arr, count, size, cmp, priv, swap, tmp,\n                             CSTL_SORT_ALGORITHM_QUICK_M);\n        break;')]),
 ]
+
+# ------------------------------------------------------------------------------------------- C05
+M['C05'] = [
+    dict(id='c05-share-forgets-soft-increment', kind='fault', rule='M1', edits=[
+        ('src/memory.c', '        atomic_fetch_add(&data->ref.hard, 1);\n        atomic_fetch_add(&data->ref.soft, 1);\n    }\n}\n\nvoid cstl_shared_ptr_reset', '        atomic_fetch_add(&data->ref.hard, 1);\n    }\n}\n\nvoid cstl_shared_ptr_reset')]),
+    dict(id='c05-share-forgets-hard-increment', kind='fault', rule='M1', edits=[
+        ('src/memory.c', '        atomic_fetch_add(&data->ref.hard, 1);\n        atomic_fetch_add(&data->ref.soft, 1);\n    }\n}\n\nvoid cstl_shared_ptr_reset', '        atomic_fetch_add(&data->ref.soft, 1);\n    }\n}\n\nvoid cstl_shared_ptr_reset')]),
+    dict(id='c05-lock-success-forgets-soft', kind='fault', rule='M1', edits=[
+        ('src/memory.c', '            atomic_fetch_add(&data->ref.soft, 1);\n        } else {', '        } else {')]),
+    dict(id='c05-lock-failure-no-undo', kind='fault', rule='M1', edits=[
+        ('src/memory.c', '            atomic_fetch_sub(&data->ref.hard, 1);\n            cstl_guarded_ptr_set(&sp->data, NULL);', '            cstl_guarded_ptr_set(&sp->data, NULL);')]),
+    dict(id='c05-lock-failure-keeps-pointer', kind='fault', rule='M1', edits=[
+        ('src/memory.c', '            atomic_fetch_sub(&data->ref.hard, 1);\n            cstl_guarded_ptr_set(&sp->data, NULL);', '            atomic_fetch_sub(&data->ref.hard, 1);')]),
+    dict(id='c05-weak-from-increments-hard', kind='fault', rule='M1', edits=[
+        ('src/memory.c', '    data = cstl_guarded_ptr_get(&wp->data);\n    if (data != NULL) {\n        atomic_fetch_add(&data->ref.soft, 1);', '    data = cstl_guarded_ptr_get(&wp->data);\n    if (data != NULL) {\n        atomic_fetch_add(&data->ref.hard, 1);\n        atomic_fetch_add(&data->ref.soft, 1);')]),
+    dict(id='c05-share-without-dropping-old', kind='fault', rule='M1', edits=[
+        ('src/memory.c', '    cstl_shared_ptr_reset(n);\n    cstl_guarded_ptr_copy(&n->data, &e->data);', '    (void)cstl_guarded_ptr_get(&n->data);\n    cstl_guarded_ptr_copy(&n->data, &e->data);')]),
+    dict(id='c05-weak-reset-keeps-pointer', kind='fault', rule='M1', edits=[
+        ('src/memory.c', '    if (data != NULL) {\n        cstl_guarded_ptr_set(&wp->data, NULL);\n\n        if (atomic_fetch_sub(&data->ref.soft, 1) == 1) {', '    if (data != NULL) {\n        if (atomic_fetch_sub(&data->ref.soft, 1) == 1) {')]),
+    dict(id='c05-alloc-starts-with-two-owners', kind='fault', rule='M1', edits=[
+        ('src/memory.c', '            atomic_init(&data->ref.hard, 1);', '            atomic_init(&data->ref.hard, 2);')]),
+    dict(id='c05-destroy-on-every-reset', kind='fault', rule='M2', edits=[
+        ('src/memory.c', '        if (atomic_fetch_sub(&data->ref.hard, 1) == 1) {\n            cstl_unique_ptr_reset(&data->up);\n        }', '        atomic_fetch_sub(&data->ref.hard, 1);\n        cstl_unique_ptr_reset(&data->up);')]),
+    dict(id='c05-free-gated-on-separate-load', kind='fault', rule='M2', edits=[
+        ('src/memory.c', '        if (atomic_fetch_sub(&data->ref.soft, 1) == 1) {\n            free(data);\n        }', '        atomic_fetch_sub(&data->ref.soft, 1);\n        if (atomic_load(&data->ref.soft) == 0) {\n            free(data);\n        }')]),
+    dict(id='c05-destroy-gated-on-soft', kind='fault', rule='M2', edits=[
+        ('src/memory.c', '        if (atomic_fetch_sub(&data->ref.hard, 1) == 1) {\n            cstl_unique_ptr_reset(&data->up);\n        }', '        atomic_fetch_sub(&data->ref.hard, 1);\n        if (atomic_load(&data->ref.soft) == 1) {\n            cstl_unique_ptr_reset(&data->up);\n        }')]),
+    dict(id='c05-free-when-count-was-two', kind='fault', rule='M2', edits=[
+        ('src/memory.c', '        if (atomic_fetch_sub(&data->ref.soft, 1) == 1) {\n            free(data);', '        if (atomic_fetch_sub(&data->ref.soft, 1) <= 2) {\n            free(data);')]),
+    dict(id='c05-unique-reset-free-before-clr', kind='fault', rule='M3', edits=[
+        ('src/memory.c', '    if (up->clr.func != NULL) {\n        up->clr.func(ptr, up->clr.priv);\n    }\n    free(ptr);', '    free(ptr);\n    if (up->clr.func != NULL) {\n        up->clr.func(ptr, up->clr.priv);\n    }')]),
+    dict(id='c05-unique-reset-no-reinit', kind='fault', rule='M3', edits=[
+        ('src/memory.c', '    free(ptr);\n    cstl_unique_ptr_init(up);', '    free(ptr);')]),
+    dict(id='c05-unique-release-frees', kind='fault', rule=['M3', 'M4'], edits=[
+        ('include/cstl/memory.h', '    cstl_unique_ptr_init(up);\n    return p;', '    free(p);\n    cstl_unique_ptr_init(up);\n    return p;')]),
+    dict(id='c05-unique-swap-leaves-clr', kind='fault', rule='M3', edits=[
+        ('include/cstl/memory.h', '    cstl_guarded_ptr_swap(&up1->gp, &up2->gp);\n    cstl_swap(&up1->clr, &up2->clr, t, sizeof(t));', '    cstl_guarded_ptr_swap(&up1->gp, &up2->gp);\n    (void)t;')]),
+    dict(id='c05-array-frees-directly', kind='fault', rule='M4', edits=[
+        ('src/memory.c', 'bool cstl_shared_ptr_unique(const cstl_shared_ptr_t * const sp)\n{', 'static void drop_block(void * const p)\n{\n    free(p);\n}\n\nbool cstl_shared_ptr_unique(const cstl_shared_ptr_t * const sp)\n{'),
+        ('src/memory.c', '    int count = 1;\n    if (data != NULL) {\n        count = atomic_load(&data->ref.soft);\n    }', '    int count = 1;\n    if (data != NULL) {\n        count = atomic_load(&data->ref.soft);\n        if (count == 0) {\n            drop_block((void *)data);\n        }\n    }')]),
+    dict(id='c05-benign-reset-restructured', kind='benign', edits=[
+        ('src/memory.c', '    if (data != NULL) {\n        if (atomic_fetch_sub(&data->ref.hard, 1) == 1) {\n            cstl_unique_ptr_reset(&data->up);\n        }\n\n        /*\n         * manage the shared data structure via the\n         * weak pointer code; it\'s the same handling\n         */\n        cstl_weak_ptr_reset(sp);\n    }',
+         '    if (data == NULL) {\n        return;\n    }\n    if (atomic_fetch_sub(&data->ref.hard, 1) != 1) {\n        cstl_weak_ptr_reset(sp);\n        return;\n    }\n    cstl_unique_ptr_reset(&data->up);\n    cstl_weak_ptr_reset(sp);')]),
+    dict(id='c05-benign-share-increment-order', kind='benign', edits=[
+        ('src/memory.c', '        atomic_fetch_add(&data->ref.hard, 1);\n        atomic_fetch_add(&data->ref.soft, 1);\n    }\n}\n\nvoid cstl_shared_ptr_reset', '        atomic_fetch_add(&data->ref.soft, 1);\n        atomic_fetch_add(&data->ref.hard, 1);\n    }\n}\n\nvoid cstl_shared_ptr_reset')]),
+    dict(id='c05-benign-weak-reset-order', kind='benign', edits=[
+        ('src/memory.c', '        cstl_guarded_ptr_set(&wp->data, NULL);\n\n        if (atomic_fetch_sub(&data->ref.soft, 1) == 1) {\n            free(data);\n        }', '        const size_t before = atomic_fetch_sub(&data->ref.soft, 1);\n        cstl_guarded_ptr_set(&wp->data, NULL);\n        if (before == 1) {\n            free(data);\n        }')]),
+]
+
+# ------------------------------------------------------------------------------------------- C06
+M['C06'] = [
+    dict(id='c06-plain-counter-type', kind='fault', rule='A1', edits=[
+        ('src/memory.c', '        atomic_size_t hard, soft;', '        size_t hard;\n        atomic_size_t soft;'),
+        ('src/memory.c', '            atomic_init(&data->ref.hard, 1);', '            data->ref.hard = 1;'),
+        ('src/memory.c', '        atomic_fetch_add(&data->ref.hard, 1);\n        atomic_fetch_add(&data->ref.soft, 1);\n    }\n}\n\nvoid cstl_shared_ptr_reset', '        data->ref.hard++;\n        atomic_fetch_add(&data->ref.soft, 1);\n    }\n}\n\nvoid cstl_shared_ptr_reset'),
+        ('src/memory.c', '        if (atomic_fetch_sub(&data->ref.hard, 1) == 1) {\n            cstl_unique_ptr_reset(&data->up);', '        if (data->ref.hard-- == 1) {\n            cstl_unique_ptr_reset(&data->up);'),
+        ('src/memory.c', '        if (atomic_fetch_add(&data->ref.hard, 1) > 0) {', '        if (data->ref.hard++ > 0) {'),
+        ('src/memory.c', '            atomic_fetch_sub(&data->ref.hard, 1);\n            cstl_guarded_ptr_set(&sp->data, NULL);', '            data->ref.hard--;\n            cstl_guarded_ptr_set(&sp->data, NULL);')]),
+    dict(id='c06-relaxed-gating-decrement', kind='fault', rule='A2', edits=[
+        ('src/memory.c', '        if (atomic_fetch_sub(&data->ref.soft, 1) == 1) {\n            free(data);', '        if (atomic_fetch_sub_explicit(&data->ref.soft, 1, memory_order_relaxed) == 1) {\n            free(data);')]),
+    dict(id='c06-release-only-hard-decrement', kind='fault', rule='A2', edits=[
+        ('src/memory.c', '        if (atomic_fetch_sub(&data->ref.hard, 1) == 1) {\n            cstl_unique_ptr_reset(&data->up);', '        if (atomic_fetch_sub_explicit(&data->ref.hard, 1, memory_order_release) == 1) {\n            cstl_unique_ptr_reset(&data->up);')]),
+    dict(id='c06-flag-cleared-before-undo', kind='fault', rule='A4', edits=[
+        ('src/memory.c', '        } else {\n            /* the memory wasn\'t live, put the counter back */\n            atomic_fetch_sub(&data->ref.hard, 1);\n            cstl_guarded_ptr_set(&sp->data, NULL);\n        }\n\n        atomic_flag_clear(&data->ref.lock);',
+         '            atomic_flag_clear(&data->ref.lock);\n        } else {\n            /* the memory wasn\'t live, put the counter back */\n            atomic_flag_clear(&data->ref.lock);\n            atomic_fetch_sub(&data->ref.hard, 1);\n            cstl_guarded_ptr_set(&sp->data, NULL);\n        }')]),
+    dict(id='c06-no-spin-loop', kind='fault', rule='A4', edits=[
+        ('src/memory.c', '        while (atomic_flag_test_and_set(&data->ref.lock)) {\n            sched_yield(); // GCOV_EXCL_LINE\n        }\n', ''),
+        ('src/memory.c', '        atomic_flag_clear(&data->ref.lock);\n    }\n}\n\nvoid cstl_weak_ptr_reset', '    }\n}\n\nvoid cstl_weak_ptr_reset')]),
+    dict(id='c06-flag-not-released-on-failure', kind='fault', rule='A3', edits=[
+        ('src/memory.c', '            cstl_guarded_ptr_set(&sp->data, NULL);\n        }\n\n        atomic_flag_clear(&data->ref.lock);', '            cstl_guarded_ptr_set(&sp->data, NULL);\n            return;\n        }\n\n        atomic_flag_clear(&data->ref.lock);')]),
+    dict(id='c06-blocking-call-under-flag', kind='fault', rule='A3', edits=[
+        ('src/memory.c', '            /* the memory wasn\'t live, put the counter back */\n            atomic_fetch_sub(&data->ref.hard, 1);\n            cstl_guarded_ptr_set(&sp->data, NULL);', '            /* the memory wasn\'t live, put the counter back */\n            atomic_fetch_sub(&data->ref.hard, 1);\n            cstl_guarded_ptr_set(&sp->data, NULL);\n            sched_yield();')]),
+    dict(id='c06-soft-before-hard-in-reset', kind='fault', rule='A5', edits=[
+        ('src/memory.c', '        if (atomic_fetch_sub(&data->ref.hard, 1) == 1) {\n            cstl_unique_ptr_reset(&data->up);\n        }\n\n        /*\n         * manage the shared data structure via the\n         * weak pointer code; it\'s the same handling\n         */\n        cstl_weak_ptr_reset(sp);',
+         '        const size_t soft_before = atomic_fetch_sub(&data->ref.soft, 1);\n        if (atomic_fetch_sub(&data->ref.hard, 1) == 1) {\n            cstl_unique_ptr_reset(&data->up);\n        }\n        cstl_guarded_ptr_set(&sp->data, NULL);\n        if (soft_before == 1) {\n            free(data);\n        }')]),
+    dict(id='c06-benign-explicit-seq-cst', kind='benign', edits=[
+        ('src/memory.c', '        if (atomic_fetch_sub(&data->ref.soft, 1) == 1) {\n            free(data);', '        if (atomic_fetch_sub_explicit(&data->ref.soft, 1, memory_order_acq_rel) == 1) {\n            free(data);')]),
+    dict(id='c06-benign-flag-clear-in-both-branches', kind='benign', edits=[
+        ('src/memory.c', '            atomic_fetch_add(&data->ref.soft, 1);\n        } else {\n            /* the memory wasn\'t live, put the counter back */\n            atomic_fetch_sub(&data->ref.hard, 1);\n            cstl_guarded_ptr_set(&sp->data, NULL);\n        }\n\n        atomic_flag_clear(&data->ref.lock);',
+         '            atomic_fetch_add(&data->ref.soft, 1);\n            atomic_flag_clear(&data->ref.lock);\n        } else {\n            /* the memory wasn\'t live, put the counter back */\n            atomic_fetch_sub(&data->ref.hard, 1);\n            atomic_flag_clear(&data->ref.lock);\n            cstl_guarded_ptr_set(&sp->data, NULL);\n        }')]),
+]
